@@ -176,7 +176,10 @@ def run_oracle(scn, tr):
         v.append(viol("result:func-count", f"{r['func_count']} expected {len(tr.calls)}"))
     last_k = tr.probes[-1]["k"] if tr.probes else None
     base = float(scn["options"].get("poll_mesh_multiplier", 2.0))  # the mesh is a power of options['poll_mesh_multiplier']
-    if last_k is not None and not (float(r["mesh_size"]) == base ** last_k or (base != 2.0 and np.isclose(float(r["mesh_size"]), base ** last_k, rtol=1e-12))):
+    # with search_mesh_expand > 0 a successful search spree advances the mesh *integer* for the next iteration; when the run
+    # ends there, the mesh size in force during the last iteration is what the final state holds and the result reports
+    expand_ok = bool(scn["options"].get("search_mesh_expand", 0)) and float(r["mesh_size"]) == tr.probes[-1]["mesh"]
+    if last_k is not None and not expand_ok and not (float(r["mesh_size"]) == base ** last_k or (base != 2.0 and np.isclose(float(r["mesh_size"]), base ** last_k, rtol=1e-12))):
         v.append(viol("result:mesh-size", f"{r['mesh_size']} expected {base}^{last_k}"))
     x0r = np.asarray(r["x0"], dtype=float).ravel()
     if scn.get("x0") is not None:
